@@ -81,13 +81,13 @@ func genForm(t *rapid.T, kind string, v6 bool, relaxed bool) FormSpec {
 func destKinds(kind string) []string {
 	switch kind {
 	case "icmp-echo":
-		return []string{"echo-reply", "echo-reply", "echo-reply", "ttl-exceeded"}
+		return []string{"echo-reply", "echo-reply", "echo-reply", "echo-reply", "ttl-exceeded", "unreach-admin"}
 	case "udp":
 		return []string{"unreach-port", "unreach-port", "ttl-exceeded", "unreach-host", "unreach-admin"}
 	case "tcp-syn":
-		return []string{"synack", "rst", "rstack", "synack", "ttl-exceeded"}
+		return []string{"synack", "rst", "rstack", "synack", "ttl-exceeded", "synack", "unreach-host", "unreach-admin"}
 	default:
-		return []string{"sack", "sack", "sack", "ttl-exceeded"}
+		return []string{"sack", "sack", "sack", "ttl-exceeded", "sack", "unreach-host", "unreach-admin"}
 	}
 }
 
